@@ -1,1 +1,231 @@
-// harnesses for bucket (none yet)
+// C08 — bucket step: one `Bucket::add_node` from an ARBITRARY bucket state (inductive step, so
+// histories of any length are covered as long as the representation invariant holds:
+// live handles pairwise distinct - re-asserted after the step).
+//
+// Slot occupancy: every slot holds its own concrete identity in an arbitrary *state* (never
+// answered = what `status()` sees in an empty slot's placeholder, or answered/queried at symbolic
+// ages with 0..3 unanswered queries). A free slot is therefore represented by a bad node with a
+// unique identity instead of Bucket::new's shared zero-id placeholder; `add_node` treats the two
+// alike unless the offered identity equals it. Slots named `ph` are the real placeholders.
+use super::*;
+use crate::node::verif::symbolic_slot_with;
+use crate::verif::{clock, concrete_addr_v4, concrete_id};
+
+/// identity key of a slot: ids used here are concrete and differ in their last byte
+/// (1..=8 slot identities, 9 newcomer, 0 placeholder)
+fn key(n: &Node) -> u8 {
+    n.id().as_ref()[19]
+}
+
+/// Slots `lo..hi` arbitrary; the others are filled by `fill`: 0 = Bucket::new's placeholder,
+/// 1 = good, 2 = questionable.
+pub(crate) fn symbolic_bucket(tag: u8, sym_lo: usize, sym_hi: usize, fill: u8, coarse: bool) -> Bucket {
+    let mut b = Bucket::new();
+    let mut j = 0;
+    while j < MAX_BUCKET_SIZE {
+        let id = concrete_id(tag, j as u8);
+        let addr = concrete_addr_v4(j as u8);
+        if j >= sym_lo && j < sym_hi {
+            b.nodes[j] = symbolic_slot_with(id, addr, coarse);
+        } else {
+            match fill {
+                1 => b.nodes[j] = Node::as_good(id, addr),
+                2 => b.nodes[j] = Node::as_questionable(id, addr),
+                _ => {}
+            }
+        }
+        j += 1;
+    }
+    b
+}
+
+/// `offer_ident`: 0..=7 = the identity stored in that slot, 8 = an identity not in the bucket.
+fn step(sym_lo: usize, sym_hi: usize, fill: u8, offer_ident: u8, coarse: bool) {
+    // ---- symbolic inputs -------------------------------------------------------------------
+    let offer_kind: u8 = kani::any(); // 0 = as responder (good), 1 = hearsay (questionable), 2 = bad
+    kani::assume(offer_kind <= 2);
+    clock::start_fixed();
+    let mut bucket = symbolic_bucket(1, sym_lo, sym_hi, fill, coarse);
+
+    // ---- pre-state -------------------------------------------------------------------------
+    let mut pre_key = [0u8; MAX_BUCKET_SIZE];
+    let mut pre_status = [NodeStatus::Bad; MAX_BUCKET_SIZE];
+    let mut has_free_or_bad = false;
+    let mut j = 0;
+    while j < MAX_BUCKET_SIZE {
+        pre_key[j] = key(&bucket.nodes[j]);
+        pre_status[j] = bucket.nodes[j].status();
+        if pre_status[j] == NodeStatus::Bad {
+            has_free_or_bad = true;
+        }
+        j += 1;
+    }
+
+    let oid = concrete_id(1, offer_ident);
+    let oaddr = concrete_addr_v4(offer_ident);
+    let okey = oid.as_ref()[19];
+    let new_node = match offer_kind {
+        0 => Node::as_good(oid, oaddr),
+        1 => Node::as_questionable(oid, oaddr),
+        _ => Node::as_bad(oid, oaddr),
+    };
+    let new_status = new_node.status();
+    let mut already_in = false; // identity already stored (live or bad-but-remembered)
+    let mut exists_worse = false;
+    j = 0;
+    while j < MAX_BUCKET_SIZE {
+        if pre_key[j] == okey {
+            already_in = true;
+        }
+        if pre_status[j] < new_status {
+            exists_worse = true;
+        }
+        j += 1;
+    }
+
+    // ---- the step --------------------------------------------------------------------------
+    let admitted = bucket.add_node(new_node);
+
+    // ---- post-conditions -------------------------------------------------------------------
+    let mut post_key = [0u8; MAX_BUCKET_SIZE];
+    let mut post_status = [NodeStatus::Bad; MAX_BUCKET_SIZE];
+    j = 0;
+    while j < MAX_BUCKET_SIZE {
+        post_key[j] = key(&bucket.nodes[j]);
+        post_status[j] = bucket.nodes[j].status();
+        j += 1;
+    }
+    let mut gone = 0u32;
+    let mut new_present_live = 0u32;
+    let mut unchanged = true;
+    j = 0;
+    while j < MAX_BUCKET_SIZE {
+        let pk = pre_key[j];
+        // is the identity that was in slot j (if live) still stored, live?
+        if pre_status[j] != NodeStatus::Bad {
+            let mut copies = 0u32;
+            let mut m = 0;
+            while m < MAX_BUCKET_SIZE {
+                if post_key[m] == pk && post_status[m] != NodeStatus::Bad {
+                    copies += 1;
+                }
+                m += 1;
+            }
+            assert!(copies <= 1, "C08: an (id, address) pair appears twice in a bucket");
+            if copies == 0 {
+                gone += 1;
+                assert!(new_status != NodeStatus::Bad, "C08: offering a bad node removed a live node");
+                assert!(pk != okey, "C08: a repeat offer removed the node itself");
+                assert!(pre_status[j] < new_status, "C08: a node was replaced by one of equal or lower standing");
+                assert!(!has_free_or_bad, "C08: a live node was evicted although the bucket had a free or bad slot");
+            } else if pk != okey {
+                // other nodes keep their slot and standing
+                assert!(post_key[j] == pk && post_status[j] == pre_status[j], "C08: an uninvolved node was moved or changed");
+            } else {
+                // repeat offer: updated in place, never downgraded
+                assert!(post_key[j] == pk && post_status[j] >= pre_status[j], "C08: a repeat offer moved or downgraded the stored node");
+            }
+        }
+        if post_key[j] != pk || post_status[j] != pre_status[j] {
+            unchanged = false;
+        }
+        if post_key[j] == okey && post_status[j] != NodeStatus::Bad {
+            new_present_live += 1;
+        }
+        j += 1;
+    }
+    assert!(gone <= 1, "C08: one offer removed more than one node");
+    assert!(new_present_live <= 1, "C08: the offered node is stored twice");
+
+    if new_status == NodeStatus::Bad {
+        assert!(unchanged, "C08: offering a bad node changed the bucket");
+    } else if already_in || has_free_or_bad || exists_worse {
+        // room, a worse node, or already there => admitted
+        assert!(admitted, "C08: offered node refused although room or a worse node existed");
+        assert!(new_present_live == 1, "C08: offered node reported admitted but is not stored");
+    } else {
+        // full bucket of nodes of equal or better standing rejects the newcomer, unchanged
+        assert!(!admitted, "C08: a full bucket of equal-or-better nodes reported the newcomer as admitted");
+        assert!(unchanged && new_present_live == 0, "C08: a full bucket of equal-or-better nodes was modified");
+    }
+    kani::cover!(admitted && new_status != NodeStatus::Bad, "an offer was admitted");
+    kani::cover!(new_status == NodeStatus::Bad, "a bad offer was made");
+}
+
+// ---- quick tier: halves -------------------------------------------------------------------------
+
+#[kani::proof]
+#[kani::unwind(21)]
+fn c08_bucket_lo4_ph_fresh() {
+    step(0, 4, 0, 8, true);
+}
+
+#[kani::proof]
+#[kani::unwind(21)]
+fn c08_bucket_lo4_ph_repeat2() {
+    step(0, 4, 0, 2, true);
+}
+
+#[kani::proof]
+#[kani::unwind(21)]
+fn c08_bucket_hi4_good_fresh() {
+    step(4, 8, 1, 8, true);
+}
+
+#[kani::proof]
+#[kani::unwind(21)]
+fn c08_bucket_hi4_questionable_fresh() {
+    step(4, 8, 2, 8, true);
+}
+
+#[kani::proof]
+#[kani::unwind(21)]
+fn c08_bucket_lo4_questionable_repeat0() {
+    step(0, 4, 2, 0, true);
+}
+
+// ---- thorough tier: all 8 slots arbitrary at once ------------------------------------------------
+
+#[kani::proof]
+#[kani::unwind(21)]
+fn c08_bucket_all8_fresh() {
+    step(0, 8, 0, 8, true);
+}
+
+#[kani::proof]
+#[kani::unwind(21)]
+fn c08_bucket_all8_repeat0() {
+    step(0, 8, 0, 0, true);
+}
+
+#[kani::proof]
+#[kani::unwind(21)]
+fn c08_bucket_all8_repeat5() {
+    step(0, 8, 0, 5, true);
+}
+
+#[kani::proof]
+#[kani::unwind(21)]
+fn c08_bucket_all8_repeat7() {
+    step(0, 8, 0, 7, true);
+}
+
+// ---- thorough tier: every second in [0, 2 h] for the ages (fine), four slots at a time -----------
+
+#[kani::proof]
+#[kani::unwind(21)]
+fn c08_bucket_fine_lo4_ph_fresh() {
+    step(0, 4, 0, 8, false);
+}
+
+#[kani::proof]
+#[kani::unwind(21)]
+fn c08_bucket_fine_hi4_questionable_fresh() {
+    step(4, 8, 2, 8, false);
+}
+
+#[kani::proof]
+#[kani::unwind(21)]
+fn c08_bucket_fine_lo4_good_repeat1() {
+    step(0, 4, 1, 1, false);
+}
